@@ -81,6 +81,9 @@ class C19:
     def coq_case(self, c, out):
         if c.line.startswith("trk"):
             t = c.line.split()
+            if out.strip() in ("PANIC", "MANAGERPANIC"):
+                # the session died while handling tracker commands: it did not come back from the first pump
+                out = "BLOCKED | - | - | -"
             pumps, contacted, cands, kill = [x.strip() for x in out.split("|")]
             lst = lambda x: "[%s]" % ("" if x == "-" else ";".join(x.split(",")))
             return "CFaults %s %s %s [%s] %s %s %s" % (t[1], lst(t[2]), t[3],
